@@ -51,10 +51,12 @@ def _is_U(e):
 class TransformerRun(object):
     """One path of time_unit_transformer under an assumption on (begin_unit empty?, end_unit empty?)."""
 
-    def __init__(self, f, b_empty, e_empty):
+    def __init__(self, f, b_empty, e_empty, ix=None, nodep=None):
         self.f = f
+        self.ix = ix
         pnames = [a.arg for a in f.node.args.args]
-        self.nodep = 'node' if 'node' in pnames else pnames[1]
+        self.nodep = nodep or ('node' if 'node' in pnames else 'element' if 'element' in pnames else pnames[1])
+        self.ret_scalar = None
         self.units = {}  # local name -> 'EMPTY' | 'B' | 'E' | 'D' | 'P' (period unit)
         self.nums = {}  # local name -> RatFun
         self.b_empty = b_empty
@@ -74,9 +76,9 @@ class TransformerRun(object):
             return 'EMPTY' if self.b_empty else 'B'
         if s == '%s.end_unit' % self.nodep:
             return 'EMPTY' if self.e_empty else 'E'
-        if s in ('self.ast.unit', 'self.unit', 'ast.unit'):
+        if s in ('self.ast.unit', 'self.unit', 'ast.unit', 'self.spec.unit', 'spec.unit'):
             return 'D'
-        if s in ('self.sampling_period_unit', 'self.ast.sampling_period_unit'):
+        if s in ('self.sampling_period_unit', 'self.ast.sampling_period_unit', 'ast.sampling_period_unit', 'self.spec.sampling_period_unit', 'spec.sampling_period_unit'):
             return 'P'
         if isinstance(e, ast.Constant) and isinstance(e.value, str):
             return 'EMPTY' if e.value == '' else 'LIT:' + e.value
@@ -141,7 +143,7 @@ class TransformerRun(object):
             return alg.RatFun.sym('b')
         if s == '%s.end' % self.nodep:
             return alg.RatFun.sym('e')
-        if s in ('self.sampling_period', 'self.ast.sampling_period'):
+        if s in ('self.sampling_period', 'self.ast.sampling_period', 'ast.sampling_period', 'self.spec.sampling_period', 'spec.sampling_period'):
             return alg.RatFun.sym('period')
         k = _is_U(e)
         if k is not None:
@@ -164,6 +166,29 @@ class TransformerRun(object):
         r = ev.ev(e)
         return r, ev.int_applied
 
+    def call(self, c):
+        """a call of a module-level helper of the package, interpreted with the same assumption on the units; the helper's node parameter
+        is the one that receives this function's node"""
+        from sa.index import FuncInfo
+        if self.ix is None or not isinstance(c.func, (ast.Name, ast.Attribute)) or c.keywords:
+            return None
+        tgt = self.ix.resolve_expr(self.f.module, c.func)
+        if isinstance(c.func, ast.Attribute) and isinstance(c.func.value, ast.Name) and c.func.value.id == 'self' and self.f.owner is not None:
+            tgt = self.ix.resolve_method(self.f.owner, c.func.attr)
+        if not isinstance(tgt, FuncInfo):
+            return None
+        ps = [a.arg for a in tgt.node.args.args]
+        if ps and ps[0] == 'self':
+            ps = ps[1:]
+        nodep = None
+        for p, a in zip(ps, c.args):
+            if isinstance(a, ast.Name) and a.id == self.nodep:
+                nodep = p
+        sub = TransformerRun(tgt, self.b_empty, self.e_empty, ix=self.ix, nodep=nodep or '#none')
+        sub.run()
+        self.problems += sub.problems
+        return sub
+
     # statements ----------------------------------------------------------------------------------------
     def run(self):
         self.block(self.f.node.body)
@@ -185,6 +210,11 @@ class TransformerRun(object):
                 if u is not None and not isinstance(st.value, ast.Name) or (isinstance(st.value, ast.Name) and st.value.id in self.units):
                     self.units[t.id] = u
                     return
+                if isinstance(st.value, ast.Call):
+                    sub = self.call(st.value)
+                    if sub is not None and sub.ret_scalar is not None:
+                        self.nums[t.id] = sub.ret_scalar
+                        return
                 try:
                     r, ints = self.num_of(st.value)
                 except ValueError as ex:
@@ -198,7 +228,10 @@ class TransformerRun(object):
                             self.problems.append((st.lineno, 'int(%s) is applied without a dominating divisibility guard: the bound is rounded instead of rejected' % s))
                 return
             if isinstance(t, ast.Tuple) and isinstance(st.value, ast.Call):
-                # begin, end = helper(...)  -- not interpreted
+                sub = self.call(st.value)
+                if sub is not None and sub.ret is not None and len(t.elts) == 2 and all(isinstance(x, ast.Name) for x in t.elts):
+                    self.nums[t.elts[0].id], self.nums[t.elts[1].id] = sub.ret
+                    return
                 raise AnalysisError('%s: tuple assignment from a call is not interpreted' % self.f.where)
         if isinstance(st, ast.If):
             v = self.test(st.test)
@@ -220,7 +253,12 @@ class TransformerRun(object):
                 except ValueError as ex:
                     raise AnalysisError('%s: cannot interpret return (%s)' % (self.f.where, ex))
             else:
-                raise AnalysisError('%s: transformer does not return a (begin, end) pair' % self.f.where)
+                try:
+                    self.ret_scalar = self.num_of(st.value)[0]
+                    self.ret = None
+                    self.raised = True     # stops the block; ret_scalar carries the value
+                except ValueError:
+                    raise AnalysisError('%s: transformer does not return a (begin, end) pair' % self.f.where)
             return
         if isinstance(st, ast.Raise):
             self.raised = True
@@ -248,7 +286,10 @@ def check_transformer(ix, rep, cls_mod, cls_name, kind, func=None):
     for b_empty in (False, True):
         for e_empty in (False, True):
             case = 'begin_unit=%s,end_unit=%s' % ('absent' if b_empty else 'present', 'absent' if e_empty else 'present')
-            run = TransformerRun(f, b_empty, e_empty).run()
+            run = TransformerRun(f, b_empty, e_empty, ix=ix).run()
+            if kind == 'samples':
+                # evaluate() has rejected bounds that are no whole number of periods before anything is explained
+                run.problems = [(l_, m_) for (l_, m_) in run.problems if 'int(' not in m_]
             for (line, msg) in run.problems:
                 rule = 'R-GUARD-DOM' if 'int(' in msg else 'R-UNITDOM'
                 rep.fail(rule, f.module.rel, f.qual, '%s:%s' % (kind, case), 'with %s the transformer %s' % (case, msg), line)
@@ -260,7 +301,7 @@ def check_transformer(ix, rep, cls_mod, cls_name, kind, func=None):
             for idx, which in enumerate(('b', 'e')):
                 u = expected_unit(which, b_empty, e_empty)
                 num = alg.RatFun.sym(which) * alg.RatFun.sym('U[%s]' % u)
-                if kind == 'discrete':
+                if kind in ('discrete', 'samples'):
                     want = num / (alg.RatFun.sym('period') * alg.RatFun.sym('U[P]'))
                     wtxt = '%s * U[%s unit] / (sampling_period * U[period unit])' % (which, {'B': 'begin', 'E': 'end', 'D': 'default'}[u])
                 else:
